@@ -113,59 +113,78 @@ structure StepOut where
   blocks : String
   states : String
 
+/-- the proposal of height `H`: LastCommit is the seen commit of the previous height -/
+def proposal (n : Node) (i : StepIn) : BlockStore.Block × BlockStore.Commit :=
+  let H := nextHeight n.st
+  let lc : BlockStore.Commit :=
+    if i.badlc then { height := H - 1, blockHash := bogusHash }
+    else (BlockStore.loadSeen n.bdb (H - 1)).getD { height := 0, blockHash := 0 }
+  ({ height := H, hash := i.id, total := i.parts, lastCommit := lc, vu := i.vu, pu := i.pu, retain := i.retain },
+   { height := H, blockHash := if i.badsc then bogusHash else i.id })
+
+/-- `validateBlock` as far as the stores are concerned: the LastCommit is for the state's last
+block; empty at the initial height -/
+def lastCommitOK (st : StateStore.St) (H : Int) (b : BlockStore.Block) : Bool :=
+  if H = st.initialHeight then b.lastCommit = { height := 0, blockHash := 0 }
+  else b.lastCommit = { height := H - 1, blockHash := st.lastBlockHash }
+
+/-- 1. `finalizeCommit` validates the block (panic if invalid), then SaveBlock — unless the store
+already has the height (then the stored block is applied) -/
+def phase1 (n : Node) (i : StepIn) :
+    Except String (Option BlockStore.Block × BlockStore.Store × List U × String) :=
+  let H := nextHeight n.st
+  if n.bs.height < H then
+    if !lastCommitOK n.st H (proposal n i).1 then .error "panic:invalid" else
+    match BlockStore.saveBlock n.bs (proposal n i).1 (!i.incomplete) (proposal n i).2 with
+    | .error .notContiguous => .error "panic:notContiguous"
+    | .error .incomplete => .error "panic:incomplete"
+    | .ok (bs', us) => .ok (some (proposal n i).1, bs', us.map U.b, "1")
+  else .ok (BlockStore.loadBlock n.bdb H, n.bs, [], "0")
+
+structure Applied where
+  units : List U
+  st : StateStore.St
+  verdict : String    -- "ok" | "err:validate" | "panic:noLastVals" | "err:save"
+
+/-- 2. ApplyBlock: validateBlock (the LastCommit must be for the state's last block; empty at the
+initial height), BeginBlock needs the validators of the previous height, then
+`SaveABCIResponses`, `updateState`, `Save` -/
+def applyBlock (sdb : StateStore.DB) (st : StateStore.St) (H : Int) (b : BlockStore.Block) : Applied :=
+  if !lastCommitOK st H b then { units := [], st := st, verdict := "err:validate" }
+  else if H > st.initialHeight ∧ !StateStore.valsLoadable sdb (H - 1) then
+    { units := [], st := st, verdict := "panic:noLastVals" }
+  else
+    let st' := StateStore.updateState st H b.hash b.vu b.pu
+    let sv := StateStore.save st'
+    let us := (StateStore.saveAbci H).map U.s ++ sv.1.map U.s
+    if !sv.2 then { units := us, st := st, verdict := "err:save" }
+    else { units := us, st := st', verdict := "ok" }
+
 /-- one height of `finalizeCommit` -/
 def step (n : Node) (i : StepIn) : StepOut :=
   let H := nextHeight n.st
   let stop (saved applied : String) (us : List U) (nd : Node) : StepOut :=
     { node := nd, units := us, h := H, saved := saved, applied := applied, blocks := "none", states := "skip" }
-  -- the proposal: LastCommit is the seen commit of the previous height
-  let lc : BlockStore.Commit :=
-    if i.badlc then { height := H - 1, blockHash := bogusHash }
-    else (BlockStore.loadSeen n.bdb (H - 1)).getD { height := 0, blockHash := 0 }
-  let blk : BlockStore.Block :=
-    { height := H, hash := i.id, total := i.parts, lastCommit := lc, vu := i.vu, pu := i.pu, retain := i.retain }
-  let sc : BlockStore.Commit := { height := H, blockHash := if i.badsc then bogusHash else i.id }
-  -- 1. SaveBlock unless the store already has the height (then the stored block is applied)
-  let r1 : Except String (Option BlockStore.Block × BlockStore.Store × List U × String) :=
-    if n.bs.height < H then
-      match BlockStore.saveBlock n.bs blk (!i.incomplete) sc with
-      | .error .notContiguous => .error "panic:notContiguous"
-      | .error .incomplete => .error "panic:incomplete"
-      | .ok (bs', us) => .ok (some blk, bs', us.map U.b, "1")
-    else .ok (BlockStore.loadBlock n.bdb H, n.bs, [], "0")
-  match r1 with
+  match phase1 n i with
   | .error e => stop e "skip" [] n
   | .ok (none, _, _, _) => stop "panic:noStoredBlock" "skip" [] n
   | .ok (some b, bs1, us1, saved) =>
     let d1 := applyUs (n.bdb, n.sdb) us1
-    let n1 : Node := { bdb := d1.1, sdb := d1.2, bs := bs1, st := n.st }
-    -- 2. ApplyBlock: validateBlock (the LastCommit must be for the state's last block; empty at
-    -- the initial height), then BeginBlock needs the validators of the previous height
-    let lcOK : Bool :=
-      if H = n.st.initialHeight then b.lastCommit = { height := 0, blockHash := 0 }
-      else b.lastCommit = { height := H - 1, blockHash := n.st.lastBlockHash }
-    if !lcOK then stop saved "err:validate" us1 n1
-    else if H > n.st.initialHeight ∧ !StateStore.valsLoadable n.sdb (H - 1) then
-      stop saved "panic:noLastVals" us1 n1
+    let a := applyBlock n.sdb n.st H b
+    let d3 := applyUs d1 a.units
+    if a.verdict ≠ "ok" then
+      stop saved a.verdict (us1 ++ a.units) { bdb := d3.1, sdb := d3.2, bs := bs1, st := a.st }
     else
-      let us2 := (StateStore.saveAbci H).map U.s
-      let st' := StateStore.updateState n.st H b.hash b.vu b.pu
-      let sv := StateStore.save st'
-      let us3 := sv.1.map U.s
-      let d3 := applyUs d1 (us2 ++ us3)
-      if !sv.2 then
-        stop saved "err:save" (us1 ++ us2 ++ us3) { n1 with bdb := d3.1, sdb := d3.2 }
+      -- 3. prune if the application asked for it
+      if b.retain > 0 then
+        let p := pruneGlue d3.1 d3.2 bs1 b.retain
+        let d4 := applyUs d3 p.units
+        { node := { bdb := d4.1, sdb := d4.2, bs := p.bs, st := a.st },
+          units := us1 ++ a.units ++ p.units, h := H, saved := saved, applied := "ok",
+          blocks := p.blocks, states := p.states }
       else
-        -- 3. prune if the application asked for it
-        if b.retain > 0 then
-          let p := pruneGlue d3.1 d3.2 bs1 b.retain
-          let d4 := applyUs d3 p.units
-          { node := { bdb := d4.1, sdb := d4.2, bs := p.bs, st := st' },
-            units := us1 ++ us2 ++ us3 ++ p.units, h := H, saved := saved, applied := "ok",
-            blocks := p.blocks, states := p.states }
-        else
-          { node := { bdb := d3.1, sdb := d3.2, bs := bs1, st := st' },
-            units := us1 ++ us2 ++ us3, h := H, saved := saved, applied := "ok",
-            blocks := "none", states := "skip" }
+        { node := { bdb := d3.1, sdb := d3.2, bs := bs1, st := a.st },
+          units := us1 ++ a.units, h := H, saved := saved, applied := "ok",
+          blocks := "none", states := "skip" }
 
 end Tmv.StoreNode
